@@ -328,6 +328,10 @@ func skolemGoal(goal string, earlier []string) (decls []string, insts []string, 
 	var consts [][2]string
 	for name, sk := range sub {
 		consts = append(consts, [2]string{sk, sorts[name]})
+		if sorts[name] == "Int" {
+			// neighbours of an index named by the goal: shifted-by-one facts (removal, insertion) need them
+			consts = append(consts, [2]string{"(+ " + sk + " 1)", "Int"}, [2]string{"(- " + sk + " 1)", "Int"})
+		}
 	}
 	for _, ws := range wits {
 		consts = append(consts, ws...)
